@@ -1,4 +1,5 @@
 //! C10 — arena bookkeeping and reported statistics are coherent; type-erased statistics equal the typed ones.
+use crate::check;
 use crate::common::*;
 use bump_scope::alloc::Allocator;
 use bump_scope::settings::BumpAllocatorSettings;
@@ -9,21 +10,21 @@ use bump_scope::{BaseAllocator, Bump};
 /// field-by-field comparison of typed and type-erased statistics (<= 2 chunks); each field has its own check so
 /// that a finding is keyed per field
 fn assert_any_equals_typed<A, St: BumpAllocatorSettings>(typed: Stats<'_, A, St>, any: AnyStats<'_>) {
-    assert!(any.count() == typed.count(), "C10: any_stats count differs from typed stats");
-    assert!(any.size() == typed.size(), "C10: any_stats size differs from typed stats");
-    assert!(any.capacity() == typed.capacity(), "C10: any_stats capacity differs from typed stats");
-    assert!(any.allocated() == typed.allocated(), "C10: any_stats allocated differs from typed stats");
-    assert!(any.remaining() == typed.remaining(), "C10: any_stats remaining differs from typed stats");
+    check!(any.count() == typed.count(), "C10: any_stats count differs from typed stats");
+    check!(any.size() == typed.size(), "C10: any_stats size differs from typed stats");
+    check!(any.capacity() == typed.capacity(), "C10: any_stats capacity differs from typed stats");
+    check!(any.allocated() == typed.allocated(), "C10: any_stats allocated differs from typed stats");
+    check!(any.remaining() == typed.remaining(), "C10: any_stats remaining differs from typed stats");
     match (typed.current_chunk(), any.current_chunk()) {
         (None, None) => {}
         (Some(t), Some(a)) => {
-            assert!(a.chunk_start() == t.chunk_start(), "C10: any chunk_start differs from typed");
-            assert!(a.chunk_end() == t.chunk_end(), "C10: any chunk_end differs from typed");
-            assert!(a.content_start() == t.content_start(), "C10: any content_start differs from typed");
-            assert!(a.content_end() == t.content_end(), "C10: any content_end differs from typed");
-            assert!(a.bump_position() == t.bump_position(), "C10: any bump_position differs from typed");
-            assert!(a.size() == t.size() && a.capacity() == t.capacity() && a.allocated() == t.allocated() && a.remaining() == t.remaining(), "C10: any chunk numbers differ from typed");
-            assert!(a.prev().is_some() == t.prev().is_some() && a.next().is_some() == t.next().is_some(), "C10: any chunk neighbours differ from typed");
+            check!(a.chunk_start() == t.chunk_start(), "C10: any chunk_start differs from typed");
+            check!(a.chunk_end() == t.chunk_end(), "C10: any chunk_end differs from typed");
+            check!(a.content_start() == t.content_start(), "C10: any content_start differs from typed");
+            check!(a.content_end() == t.content_end(), "C10: any content_end differs from typed");
+            check!(a.bump_position() == t.bump_position(), "C10: any bump_position differs from typed");
+            check!(a.size() == t.size() && a.capacity() == t.capacity() && a.allocated() == t.allocated() && a.remaining() == t.remaining(), "C10: any chunk numbers differ from typed");
+            check!(a.prev().is_some() == t.prev().is_some() && a.next().is_some() == t.next().is_some(), "C10: any chunk neighbours differ from typed");
         }
         _ => panic!("C10: any_stats and typed stats disagree on whether there is a current chunk"),
     }
@@ -74,9 +75,9 @@ where
         _ => {
             let g = bump.claim();
             let s = bump.stats();
-            assert!(s.count() == 0 && s.size() == 0 && s.capacity() == 0 && s.allocated() == 0 && s.remaining() == 0, "C10: claimed arena reports non-zero statistics");
+            check!(s.count() == 0 && s.size() == 0 && s.capacity() == 0 && s.allocated() == 0 && s.remaining() == 0, "C10: claimed arena reports non-zero statistics");
             let a = bump.any_stats();
-            assert!(a.count() == 0 && a.size() == 0 && a.capacity() == 0 && a.allocated() == 0 && a.remaining() == 0, "C10: claimed arena reports non-zero any_stats");
+            check!(a.count() == 0 && a.size() == 0 && a.capacity() == 0 && a.allocated() == 0 && a.remaining() == 0, "C10: claimed arena reports non-zero any_stats");
             assert_stats_coherent(g.stats(), header_size);
         }
     }
@@ -124,9 +125,9 @@ stats_harness!(stats_claimed_stateful_down1_b1, VAStateful, S<1, false>, 48, 1, 
 fn stats_unallocated_zero() {
     let bump: Bump<VA, S<1, true, false>> = Bump::unallocated();
     let s = bump.stats();
-    assert!(s.count() == 0 && s.size() == 0 && s.capacity() == 0 && s.allocated() == 0 && s.remaining() == 0, "C10: unallocated arena reports non-zero statistics");
-    assert!(s.current_chunk().is_none() && s.small_to_big().next().is_none() && s.big_to_small().next().is_none(), "C10: unallocated arena reports chunks");
+    check!(s.count() == 0 && s.size() == 0 && s.capacity() == 0 && s.allocated() == 0 && s.remaining() == 0, "C10: unallocated arena reports non-zero statistics");
+    check!(s.current_chunk().is_none() && s.small_to_big().next().is_none() && s.big_to_small().next().is_none(), "C10: unallocated arena reports chunks");
     let a = bump.any_stats();
-    assert!(a.count() == 0 && a.size() == 0 && a.capacity() == 0 && a.allocated() == 0 && a.remaining() == 0, "C10: unallocated arena reports non-zero any_stats");
+    check!(a.count() == 0 && a.size() == 0 && a.capacity() == 0 && a.allocated() == 0 && a.remaining() == 0, "C10: unallocated arena reports non-zero any_stats");
     kani::cover!(true, "END: harness ran to completion");
 }
